@@ -455,13 +455,22 @@ class Analysis:
             return frozenset(out)
         C["Failed"] = query_class("query_failed")
         C["UpstreamFailed"] = query_class("query_upstream_failed")
-        C["RunningQ"] = query_class("query_jobs_running")
+        # the running report is either a scan of the job states or a clone of a set the engine maintains
+        C["RunningSetField"] = None
+        bq = self.evaluator_fn("query_jobs_running")
+        rq = self.joined_run(bq)
+        cl = set(v["field"] for v in rq.by_kind("clone_field"))
+        if len(cl) == 1 and None not in cl and rq.ret is not None and rq.ret[0] == "obj":
+            C["RunningSetField"] = list(cl)[0]
+            C["RunningQ"] = None
+        else:
+            C["RunningQ"] = query_class("query_jobs_running")
         C["Aborted"] = C["FailedLike"] - C["Failed"] - C["UpstreamFailed"]
         # the three observations of 'running' (success accepted, failure accepted, reported by query_jobs_running) agree on a
         # correct tree (R20.1 / R17.5 check that); where they do not, the other properties use what all three agree on, so that
         # one broken guard is reported by its own rule instead of as a lost anchor everywhere
         C["RunningAccepted"] = C["Running"]
-        common = C["Running"] & C["RunningF"] & C["RunningQ"]
+        common = C["Running"] & C["RunningF"] & (C["RunningQ"] if C["RunningQ"] is not None else C["Running"])
         if common:
             C["Running"] = common
         self._classes = C
